@@ -19,7 +19,7 @@ pub(crate) fn check_rabin_params(
     chunk_min_size: usize,
     chunk_max_size: usize,
 ) -> RusticResult<()> {
-    if (chunk_size & (chunk_size - 1)) != 0 {
+    if !chunk_size.is_power_of_two() {
         return Err(RusticError::new(
             ErrorKind::Unsupported,
             "Chunk size must be a power of 2 for the rabin chunker. chunk size = {chunk_size}.",
